@@ -471,8 +471,11 @@ func navigateType(mp *MetaPtr) types.Type {
 }
 
 func (e *SpecEnv) index(x Val, i Val) Val {
-	i = e.coerce(i, tInt)
-	idx := toBV64(i)
+	var idx *Term
+	if _, isMap := x.T.Underlying().(*types.Map); !isMap {
+		i = e.coerce(i, tInt)
+		idx = toBV64(i)
+	}
 	switch u := x.T.Underlying().(type) {
 	case *types.Slice:
 		return e.ex.loadElem(e.st, u.Elem(), x.C[0], BVAdd(x.C[1], idx))
@@ -491,10 +494,14 @@ func (e *SpecEnv) index(x Val, i Val) Val {
 		ks, vs := mapSorts(mt)
 		var key *Term
 		kv := e.coerce(i, mt.Key())
-		if len(kv.C) == 1 {
-			key = kv.C[0]
-		} else {
-			key = e.ex.strID(kv)
+		{
+			// the same key encoding as Lookup/MapUpdate in the code (strings by identity of content,
+			// struct keys by their uninterpreted encoding)
+			fxx := e.fx
+			if fxx == nil {
+				fxx = &fnExec{ex: e.ex, fn: e.fn}
+			}
+			key = fxx.mapKeyTerm(kv)
 		}
 		// Go semantics: the zero value for an absent key (and for a nil map)
 		has := And(Neq(x.C[0], IntC(0)), Select(Select(e.st.heapGet(mapHasKey(mt), ArraySort(IntSort, ArraySort(ks, BoolSort))), x.C[0]), key))
@@ -1249,8 +1256,9 @@ func (e *SpecEnv) evalLoc(cl Clause) Loc {
 			return Loc{Kind: "ptr", Ptr: e.ex.objPtr(pt.Elem(), base.C[0]), Guard: Neq(base.C[0], IntC(0))}
 		}
 	case "call":
-		if x.Args[0].Kind == "ident" && (x.Args[0].Name == "elems" || x.Args[0].Name == "spare") {
-			return Loc{Kind: "elems", Slice: e.eval(x.Args[1])}
+		if x.Args[0].Kind == "ident" && (x.Args[0].Name == "elems" || x.Args[0].Name == "spare" || x.Args[0].Name == "onlyelems" || x.Args[0].Name == "onlyspare") {
+			n := x.Args[0].Name
+			return Loc{Kind: "elems", Slice: e.eval(x.Args[1]), Spare: n == "spare" || n == "onlyspare", Exact: n == "onlyelems" || n == "onlyspare"}
 		}
 		if x.Args[0].Kind == "ident" && x.Args[0].Name == "mapof" {
 			// contents of every map of m's type (type-level frame: maps are not framed per object)
